@@ -30,6 +30,7 @@ func burst(r *report.Run, algo string, idx int, rng *report.Rand) {
 	defer s.Close()
 	sc := &scenario{r: r, algo: algo, s: s, up: map[string]bool{}, epidemic: algo == "epidemic" || algo == "sensor-mule"}
 	sc.hist = []string{"burst"}
+	sc.r1Only = true
 	sc.peerUpWith("src")
 	failing := rng.Bool()
 	if rng.Bool() {
